@@ -1,0 +1,2729 @@
+	.file	"test_ostream.c"
+	.text
+.Ltext0:
+	.file 0 "/repo/aldor/aldor/src" "test/test_ostream.c"
+	.section	.rodata
+.LC0:
+	.string	"testBuffer"
+.LC1:
+	.string	"testBuffer2"
+.LC2:
+	.string	"testNull"
+	.text
+	.globl	ostreamTest
+	.type	ostreamTest, @function
+ostreamTest:
+.LFB0:
+	.file 1 "test/test_ostream.c"
+	.loc 1 14 1
+	.cfi_startproc
+	pushq	%rbp
+	.cfi_def_cfa_offset 16
+	.cfi_offset 6, -16
+	movq	%rsp, %rbp
+	.cfi_def_cfa_register 6
+	.loc 1 15 2
+	leaq	testBuffer(%rip), %rax
+	movq	%rax, %rsi
+	leaq	.LC0(%rip), %rax
+	movq	%rax, %rdi
+	call	showTest@PLT
+	.loc 1 16 2
+	leaq	testBuffer2(%rip), %rax
+	movq	%rax, %rsi
+	leaq	.LC1(%rip), %rax
+	movq	%rax, %rdi
+	call	showTest@PLT
+	.loc 1 17 2
+	leaq	testNull(%rip), %rax
+	movq	%rax, %rsi
+	leaq	.LC2(%rip), %rax
+	movq	%rax, %rdi
+	call	showTest@PLT
+	.loc 1 18 1
+	nop
+	popq	%rbp
+	.cfi_def_cfa 7, 8
+	ret
+	.cfi_endproc
+.LFE0:
+	.size	ostreamTest, .-ostreamTest
+	.section	.rodata
+.LC3:
+	.string	"abcdefghi"
+.LC4:
+	.string	"ostreamWriteReturn"
+.LC5:
+	.string	"ostreamWrite-no-src-change"
+.LC6:
+	.string	"ostreamWrite-Substring"
+	.text
+	.globl	testBuffer
+	.type	testBuffer, @function
+testBuffer:
+.LFB1:
+	.loc 1 22 1
+	.cfi_startproc
+	pushq	%rbp
+	.cfi_def_cfa_offset 16
+	.cfi_offset 6, -16
+	movq	%rsp, %rbp
+	.cfi_def_cfa_register 6
+	pushq	%rbx
+	subq	$72, %rsp
+	.cfi_offset 3, -24
+	.loc 1 24 8
+	leaq	.LC3(%rip), %rax
+	movq	%rax, -32(%rbp)
+	.loc 1 25 8
+	leaq	.LC3(%rip), %rax
+	movq	%rax, -40(%rbp)
+	.loc 1 26 8
+	movl	$0, -20(%rbp)
+	.loc 1 26 2
+	jmp	.L3
+.L4:
+.LBB2:
+	.loc 1 29 19 discriminator 3
+	call	bufNew@PLT
+	movq	%rax, -48(%rbp)
+	.loc 1 30 15 discriminator 3
+	movq	-48(%rbp), %rax
+	movq	%rax, %rdi
+	call	ostreamNewFrBuffer@PLT
+	movq	%rax, -56(%rbp)
+	.loc 1 31 11 discriminator 3
+	movl	-20(%rbp), %edx
+	movq	-40(%rbp), %rcx
+	movq	-56(%rbp), %rax
+	movq	%rcx, %rsi
+	movq	%rax, %rdi
+	call	ostreamWrite@PLT
+	movl	%eax, -60(%rbp)
+	.loc 1 32 3 discriminator 3
+	movl	-60(%rbp), %edx
+	movl	-20(%rbp), %eax
+	movl	%eax, %esi
+	leaq	.LC4(%rip), %rax
+	movq	%rax, %rdi
+	call	testIntEqual@PLT
+	.loc 1 33 10 discriminator 3
+	movq	-48(%rbp), %rax
+	movq	%rax, %rdi
+	call	bufLiberate@PLT
+	movq	%rax, -72(%rbp)
+	.loc 1 34 12 discriminator 3
+	movl	-20(%rbp), %eax
+	movslq	%eax, %rdx
+	movq	-40(%rbp), %rax
+	movq	%rdx, %rsi
+	movq	%rax, %rdi
+	call	strnCopy@PLT
+	movq	%rax, -80(%rbp)
+	.loc 1 35 3 discriminator 3
+	movq	-40(%rbp), %rdx
+	movq	-32(%rbp), %rax
+	movq	%rax, %rsi
+	leaq	.LC5(%rip), %rax
+	movq	%rax, %rdi
+	call	testStringEqual@PLT
+	.loc 1 36 3 discriminator 3
+	movq	-72(%rbp), %rdx
+	movq	-80(%rbp), %rax
+	movq	%rax, %rsi
+	leaq	.LC6(%rip), %rax
+	movq	%rax, %rdi
+	call	testStringEqual@PLT
+	.loc 1 37 3 discriminator 3
+	movq	-56(%rbp), %rax
+	movq	%rax, %rdi
+	call	ostreamClose@PLT
+	.loc 1 38 3 discriminator 3
+	movq	-56(%rbp), %rax
+	movq	%rax, %rdi
+	call	ostreamFree@PLT
+.LBE2:
+	.loc 1 26 28 discriminator 3
+	addl	$1, -20(%rbp)
+.L3:
+	.loc 1 26 13 discriminator 1
+	movl	-20(%rbp), %eax
+	movslq	%eax, %rbx
+	.loc 1 26 14 discriminator 1
+	movq	-40(%rbp), %rax
+	movq	%rax, %rdi
+	call	strlen@PLT
+	.loc 1 26 13 discriminator 1
+	cmpq	%rax, %rbx
+	jb	.L4
+	.loc 1 40 1
+	nop
+	nop
+	movq	-8(%rbp), %rbx
+	leave
+	.cfi_def_cfa 7, 8
+	ret
+	.cfi_endproc
+.LFE1:
+	.size	testBuffer, .-testBuffer
+	.section	.rodata
+.LC7:
+	.string	"a"
+.LC8:
+	.string	"hello"
+.LC9:
+	.string	""
+.LC10:
+	.string	"ostreamWriteVal"
+	.text
+	.globl	testBuffer2
+	.type	testBuffer2, @function
+testBuffer2:
+.LFB2:
+	.loc 1 44 1
+	.cfi_startproc
+	pushq	%rbp
+	.cfi_def_cfa_offset 16
+	.cfi_offset 6, -16
+	movq	%rsp, %rbp
+	.cfi_def_cfa_register 6
+	subq	$48, %rsp
+	.loc 1 45 36
+	movq	String_listPointer(%rip), %rax
+	movq	16(%rax), %r8
+	leaq	.LC7(%rip), %rax
+	movq	%rax, %rcx
+	leaq	.LC8(%rip), %rax
+	movq	%rax, %rdx
+	leaq	.LC9(%rip), %rax
+	movq	%rax, %rsi
+	movl	$3, %edi
+	movl	$0, %eax
+	call	*%r8
+.LVL0:
+	movq	%rax, -8(%rbp)
+	.loc 1 46 8
+	jmp	.L6
+.L7:
+.LBB3:
+	.loc 1 47 19
+	call	bufNew@PLT
+	movq	%rax, -16(%rbp)
+	.loc 1 48 10
+	movq	-8(%rbp), %rax
+	movq	(%rax), %rax
+	movq	%rax, -24(%rbp)
+	.loc 1 49 15
+	movq	-16(%rbp), %rax
+	movq	%rax, %rdi
+	call	ostreamNewFrBuffer@PLT
+	movq	%rax, -32(%rbp)
+	.loc 1 50 11
+	movq	-24(%rbp), %rcx
+	movq	-32(%rbp), %rax
+	movl	$-1, %edx
+	movq	%rcx, %rsi
+	movq	%rax, %rdi
+	call	ostreamWrite@PLT
+	movl	%eax, -36(%rbp)
+	.loc 1 51 17
+	movq	-16(%rbp), %rax
+	movq	%rax, %rdi
+	call	bufLiberate@PLT
+	movq	%rax, -48(%rbp)
+	.loc 1 52 38
+	movq	-24(%rbp), %rax
+	movq	%rax, %rdi
+	call	strlen@PLT
+	.loc 1 52 3
+	movl	%eax, %ecx
+	movl	-36(%rbp), %eax
+	movl	%eax, %edx
+	movl	%ecx, %esi
+	leaq	.LC4(%rip), %rax
+	movq	%rax, %rdi
+	call	testIntEqual@PLT
+	.loc 1 53 3
+	movq	-48(%rbp), %rdx
+	movq	-24(%rbp), %rax
+	movq	%rax, %rsi
+	leaq	.LC10(%rip), %rax
+	movq	%rax, %rdi
+	call	testStringEqual@PLT
+	.loc 1 55 26
+	movq	String_listPointer(%rip), %rax
+	movq	56(%rax), %rdx
+	movq	-8(%rbp), %rax
+	movq	%rax, %rdi
+	call	*%rdx
+.LVL1:
+	movq	%rax, -8(%rbp)
+.L6:
+.LBE3:
+	.loc 1 46 11
+	cmpq	$0, -8(%rbp)
+	jne	.L7
+	.loc 1 57 1
+	nop
+	nop
+	leave
+	.cfi_def_cfa 7, 8
+	ret
+	.cfi_endproc
+.LFE2:
+	.size	testBuffer2, .-testBuffer2
+	.globl	testNull
+	.type	testNull, @function
+testNull:
+.LFB3:
+	.loc 1 61 1
+	.cfi_startproc
+	pushq	%rbp
+	.cfi_def_cfa_offset 16
+	.cfi_offset 6, -16
+	movq	%rsp, %rbp
+	.cfi_def_cfa_register 6
+	pushq	%rbx
+	subq	$56, %rsp
+	.cfi_offset 3, -24
+	.loc 1 63 8
+	leaq	.LC3(%rip), %rax
+	movq	%rax, -32(%rbp)
+	.loc 1 64 8
+	leaq	.LC3(%rip), %rax
+	movq	%rax, -40(%rbp)
+	.loc 1 65 8
+	movl	$0, -20(%rbp)
+	.loc 1 65 2
+	jmp	.L9
+.L10:
+.LBB4:
+	.loc 1 66 15 discriminator 3
+	call	ostreamNewFrDevNull@PLT
+	movq	%rax, -48(%rbp)
+	.loc 1 67 11 discriminator 3
+	movl	-20(%rbp), %edx
+	movq	-40(%rbp), %rcx
+	movq	-48(%rbp), %rax
+	movq	%rcx, %rsi
+	movq	%rax, %rdi
+	call	ostreamWrite@PLT
+	movl	%eax, -52(%rbp)
+	.loc 1 68 3 discriminator 3
+	movl	-52(%rbp), %edx
+	movl	-20(%rbp), %eax
+	movl	%eax, %esi
+	leaq	.LC4(%rip), %rax
+	movq	%rax, %rdi
+	call	testIntEqual@PLT
+	.loc 1 69 3 discriminator 3
+	movq	-40(%rbp), %rdx
+	movq	-32(%rbp), %rax
+	movq	%rax, %rsi
+	leaq	.LC5(%rip), %rax
+	movq	%rax, %rdi
+	call	testStringEqual@PLT
+	.loc 1 70 3 discriminator 3
+	movq	-48(%rbp), %rax
+	movq	%rax, %rdi
+	call	ostreamClose@PLT
+	.loc 1 71 3 discriminator 3
+	movq	-48(%rbp), %rax
+	movq	%rax, %rdi
+	call	ostreamFree@PLT
+.LBE4:
+	.loc 1 65 28 discriminator 3
+	addl	$1, -20(%rbp)
+.L9:
+	.loc 1 65 13 discriminator 1
+	movl	-20(%rbp), %eax
+	movslq	%eax, %rbx
+	.loc 1 65 14 discriminator 1
+	movq	-40(%rbp), %rax
+	movq	%rax, %rdi
+	call	strlen@PLT
+	.loc 1 65 13 discriminator 1
+	cmpq	%rax, %rbx
+	jb	.L10
+	.loc 1 73 1
+	nop
+	nop
+	movq	-8(%rbp), %rbx
+	leave
+	.cfi_def_cfa 7, 8
+	ret
+	.cfi_endproc
+.LFE3:
+	.size	testNull, .-testNull
+.Letext0:
+	.file 2 "/usr/include/x86_64-linux-gnu/bits/types.h"
+	.file 3 "<built-in>"
+	.file 4 "/usr/lib/gcc/x86_64-linux-gnu/12/include/stddef.h"
+	.file 5 "/usr/include/x86_64-linux-gnu/bits/types/struct_FILE.h"
+	.file 6 "/usr/include/x86_64-linux-gnu/bits/types/FILE.h"
+	.file 7 "./cport.h"
+	.file 8 "./buffer.h"
+	.file 9 "./ostream.h"
+	.file 10 "./strops.h"
+	.file 11 "test/testlib.h"
+	.file 12 "/usr/include/string.h"
+	.section	.debug_info,"",@progbits
+.Ldebug_info0:
+	.long	0xcd1
+	.value	0x5
+	.byte	0x1
+	.byte	0x8
+	.long	.Ldebug_abbrev0
+	.uleb128 0x1b
+	.long	.LASF134
+	.byte	0xc
+	.long	.LASF0
+	.long	.LASF1
+	.quad	.Ltext0
+	.quad	.Letext0-.Ltext0
+	.long	.Ldebug_line0
+	.uleb128 0x1c
+	.byte	0x4
+	.byte	0x5
+	.string	"int"
+	.uleb128 0x8
+	.byte	0x1
+	.byte	0x8
+	.long	.LASF2
+	.uleb128 0x8
+	.byte	0x2
+	.byte	0x7
+	.long	.LASF3
+	.uleb128 0x8
+	.byte	0x4
+	.byte	0x7
+	.long	.LASF4
+	.uleb128 0x8
+	.byte	0x8
+	.byte	0x7
+	.long	.LASF5
+	.uleb128 0x8
+	.byte	0x1
+	.byte	0x6
+	.long	.LASF6
+	.uleb128 0x8
+	.byte	0x2
+	.byte	0x5
+	.long	.LASF7
+	.uleb128 0x8
+	.byte	0x8
+	.byte	0x5
+	.long	.LASF8
+	.uleb128 0x6
+	.long	.LASF9
+	.byte	0x2
+	.byte	0x98
+	.byte	0x12
+	.long	0x5f
+	.uleb128 0x6
+	.long	.LASF10
+	.byte	0x2
+	.byte	0x99
+	.byte	0x12
+	.long	0x5f
+	.uleb128 0x1d
+	.byte	0x8
+	.uleb128 0x2
+	.long	0x85
+	.uleb128 0x8
+	.byte	0x1
+	.byte	0x6
+	.long	.LASF11
+	.uleb128 0x14
+	.long	0x85
+	.uleb128 0x8
+	.byte	0x4
+	.byte	0x4
+	.long	.LASF12
+	.uleb128 0x8
+	.byte	0x8
+	.byte	0x4
+	.long	.LASF13
+	.uleb128 0x1e
+	.long	.LASF135
+	.byte	0x18
+	.byte	0x3
+	.byte	0
+	.long	0xd4
+	.uleb128 0xe
+	.long	.LASF14
+	.long	0x43
+	.byte	0
+	.uleb128 0xe
+	.long	.LASF15
+	.long	0x43
+	.byte	0x4
+	.uleb128 0xe
+	.long	.LASF16
+	.long	0x7e
+	.byte	0x8
+	.uleb128 0xe
+	.long	.LASF17
+	.long	0x7e
+	.byte	0x10
+	.byte	0
+	.uleb128 0x6
+	.long	.LASF18
+	.byte	0x4
+	.byte	0xd6
+	.byte	0x1b
+	.long	0x4a
+	.uleb128 0xf
+	.long	.LASF62
+	.byte	0xd8
+	.byte	0x5
+	.byte	0x31
+	.byte	0x8
+	.long	0x267
+	.uleb128 0x3
+	.long	.LASF19
+	.byte	0x5
+	.byte	0x33
+	.byte	0x7
+	.long	0x2e
+	.byte	0
+	.uleb128 0x3
+	.long	.LASF20
+	.byte	0x5
+	.byte	0x36
+	.byte	0x9
+	.long	0x80
+	.byte	0x8
+	.uleb128 0x3
+	.long	.LASF21
+	.byte	0x5
+	.byte	0x37
+	.byte	0x9
+	.long	0x80
+	.byte	0x10
+	.uleb128 0x3
+	.long	.LASF22
+	.byte	0x5
+	.byte	0x38
+	.byte	0x9
+	.long	0x80
+	.byte	0x18
+	.uleb128 0x3
+	.long	.LASF23
+	.byte	0x5
+	.byte	0x39
+	.byte	0x9
+	.long	0x80
+	.byte	0x20
+	.uleb128 0x3
+	.long	.LASF24
+	.byte	0x5
+	.byte	0x3a
+	.byte	0x9
+	.long	0x80
+	.byte	0x28
+	.uleb128 0x3
+	.long	.LASF25
+	.byte	0x5
+	.byte	0x3b
+	.byte	0x9
+	.long	0x80
+	.byte	0x30
+	.uleb128 0x3
+	.long	.LASF26
+	.byte	0x5
+	.byte	0x3c
+	.byte	0x9
+	.long	0x80
+	.byte	0x38
+	.uleb128 0x3
+	.long	.LASF27
+	.byte	0x5
+	.byte	0x3d
+	.byte	0x9
+	.long	0x80
+	.byte	0x40
+	.uleb128 0x3
+	.long	.LASF28
+	.byte	0x5
+	.byte	0x40
+	.byte	0x9
+	.long	0x80
+	.byte	0x48
+	.uleb128 0x3
+	.long	.LASF29
+	.byte	0x5
+	.byte	0x41
+	.byte	0x9
+	.long	0x80
+	.byte	0x50
+	.uleb128 0x3
+	.long	.LASF30
+	.byte	0x5
+	.byte	0x42
+	.byte	0x9
+	.long	0x80
+	.byte	0x58
+	.uleb128 0x3
+	.long	.LASF31
+	.byte	0x5
+	.byte	0x44
+	.byte	0x16
+	.long	0x280
+	.byte	0x60
+	.uleb128 0x3
+	.long	.LASF32
+	.byte	0x5
+	.byte	0x46
+	.byte	0x14
+	.long	0x285
+	.byte	0x68
+	.uleb128 0x3
+	.long	.LASF33
+	.byte	0x5
+	.byte	0x48
+	.byte	0x7
+	.long	0x2e
+	.byte	0x70
+	.uleb128 0x3
+	.long	.LASF34
+	.byte	0x5
+	.byte	0x49
+	.byte	0x7
+	.long	0x2e
+	.byte	0x74
+	.uleb128 0x3
+	.long	.LASF35
+	.byte	0x5
+	.byte	0x4a
+	.byte	0xb
+	.long	0x66
+	.byte	0x78
+	.uleb128 0x3
+	.long	.LASF36
+	.byte	0x5
+	.byte	0x4d
+	.byte	0x12
+	.long	0x3c
+	.byte	0x80
+	.uleb128 0x3
+	.long	.LASF37
+	.byte	0x5
+	.byte	0x4e
+	.byte	0xf
+	.long	0x51
+	.byte	0x82
+	.uleb128 0x3
+	.long	.LASF38
+	.byte	0x5
+	.byte	0x4f
+	.byte	0x8
+	.long	0x28a
+	.byte	0x83
+	.uleb128 0x3
+	.long	.LASF39
+	.byte	0x5
+	.byte	0x51
+	.byte	0xf
+	.long	0x29a
+	.byte	0x88
+	.uleb128 0x3
+	.long	.LASF40
+	.byte	0x5
+	.byte	0x59
+	.byte	0xd
+	.long	0x72
+	.byte	0x90
+	.uleb128 0x3
+	.long	.LASF41
+	.byte	0x5
+	.byte	0x5b
+	.byte	0x17
+	.long	0x2a4
+	.byte	0x98
+	.uleb128 0x3
+	.long	.LASF42
+	.byte	0x5
+	.byte	0x5c
+	.byte	0x19
+	.long	0x2ae
+	.byte	0xa0
+	.uleb128 0x3
+	.long	.LASF43
+	.byte	0x5
+	.byte	0x5d
+	.byte	0x14
+	.long	0x285
+	.byte	0xa8
+	.uleb128 0x3
+	.long	.LASF44
+	.byte	0x5
+	.byte	0x5e
+	.byte	0x9
+	.long	0x7e
+	.byte	0xb0
+	.uleb128 0x3
+	.long	.LASF45
+	.byte	0x5
+	.byte	0x5f
+	.byte	0xa
+	.long	0xd4
+	.byte	0xb8
+	.uleb128 0x3
+	.long	.LASF46
+	.byte	0x5
+	.byte	0x60
+	.byte	0x7
+	.long	0x2e
+	.byte	0xc0
+	.uleb128 0x3
+	.long	.LASF47
+	.byte	0x5
+	.byte	0x62
+	.byte	0x8
+	.long	0x2b3
+	.byte	0xc4
+	.byte	0
+	.uleb128 0x6
+	.long	.LASF48
+	.byte	0x6
+	.byte	0x7
+	.byte	0x19
+	.long	0xe0
+	.uleb128 0x1f
+	.long	.LASF136
+	.byte	0x5
+	.byte	0x2b
+	.byte	0xe
+	.uleb128 0x10
+	.long	.LASF49
+	.uleb128 0x2
+	.long	0x27b
+	.uleb128 0x2
+	.long	0xe0
+	.uleb128 0x15
+	.long	0x85
+	.long	0x29a
+	.uleb128 0x16
+	.long	0x4a
+	.byte	0
+	.byte	0
+	.uleb128 0x2
+	.long	0x273
+	.uleb128 0x10
+	.long	.LASF50
+	.uleb128 0x2
+	.long	0x29f
+	.uleb128 0x10
+	.long	.LASF51
+	.uleb128 0x2
+	.long	0x2a9
+	.uleb128 0x15
+	.long	0x85
+	.long	0x2c3
+	.uleb128 0x16
+	.long	0x4a
+	.byte	0x13
+	.byte	0
+	.uleb128 0x2
+	.long	0x267
+	.uleb128 0x8
+	.byte	0x8
+	.byte	0x5
+	.long	.LASF52
+	.uleb128 0x2
+	.long	0x8c
+	.uleb128 0xc
+	.long	.LASF53
+	.value	0x156
+	.byte	0xd
+	.long	0x2e
+	.uleb128 0xc
+	.long	.LASF54
+	.value	0x158
+	.byte	0x10
+	.long	0xd4
+	.uleb128 0xc
+	.long	.LASF55
+	.value	0x166
+	.byte	0x12
+	.long	0x7e
+	.uleb128 0xc
+	.long	.LASF56
+	.value	0x16a
+	.byte	0xf
+	.long	0x80
+	.uleb128 0xc
+	.long	.LASF57
+	.value	0x16b
+	.byte	0x15
+	.long	0x2cf
+	.uleb128 0x6
+	.long	.LASF58
+	.byte	0x8
+	.byte	0x10
+	.byte	0x18
+	.long	0x31c
+	.uleb128 0x2
+	.long	0x321
+	.uleb128 0x10
+	.long	.LASF59
+	.uleb128 0x6
+	.long	.LASF60
+	.byte	0x9
+	.byte	0x7
+	.byte	0xf
+	.long	0x332
+	.uleb128 0x2
+	.long	0x337
+	.uleb128 0x4
+	.long	0x2e
+	.long	0x34b
+	.uleb128 0x1
+	.long	0x304
+	.uleb128 0x1
+	.long	0x2e
+	.byte	0
+	.uleb128 0x6
+	.long	.LASF61
+	.byte	0x9
+	.byte	0x9
+	.byte	0x19
+	.long	0x357
+	.uleb128 0x2
+	.long	0x35c
+	.uleb128 0xf
+	.long	.LASF63
+	.byte	0x10
+	.byte	0x9
+	.byte	0x15
+	.byte	0x8
+	.long	0x384
+	.uleb128 0x20
+	.string	"ops"
+	.byte	0x9
+	.byte	0x16
+	.byte	0xd
+	.long	0x420
+	.byte	0
+	.uleb128 0x3
+	.long	.LASF64
+	.byte	0x9
+	.byte	0x1a
+	.byte	0x4
+	.long	0x431
+	.byte	0x8
+	.byte	0
+	.uleb128 0x6
+	.long	.LASF65
+	.byte	0x9
+	.byte	0xb
+	.byte	0xe
+	.long	0x390
+	.uleb128 0xb
+	.long	0x3a0
+	.uleb128 0x1
+	.long	0x34b
+	.uleb128 0x1
+	.long	0x85
+	.byte	0
+	.uleb128 0x6
+	.long	.LASF66
+	.byte	0x9
+	.byte	0xc
+	.byte	0xd
+	.long	0x3ac
+	.uleb128 0x4
+	.long	0x2e
+	.long	0x3c5
+	.uleb128 0x1
+	.long	0x34b
+	.uleb128 0x1
+	.long	0x2cf
+	.uleb128 0x1
+	.long	0x2e
+	.byte	0
+	.uleb128 0x6
+	.long	.LASF67
+	.byte	0x9
+	.byte	0xd
+	.byte	0xe
+	.long	0x3d1
+	.uleb128 0xb
+	.long	0x3dc
+	.uleb128 0x1
+	.long	0x34b
+	.byte	0
+	.uleb128 0xf
+	.long	.LASF68
+	.byte	0x18
+	.byte	0x9
+	.byte	0xf
+	.byte	0x10
+	.long	0x411
+	.uleb128 0x3
+	.long	.LASF69
+	.byte	0x9
+	.byte	0x10
+	.byte	0x12
+	.long	0x411
+	.byte	0
+	.uleb128 0x3
+	.long	.LASF70
+	.byte	0x9
+	.byte	0x11
+	.byte	0x14
+	.long	0x416
+	.byte	0x8
+	.uleb128 0x3
+	.long	.LASF71
+	.byte	0x9
+	.byte	0x12
+	.byte	0xe
+	.long	0x41b
+	.byte	0x10
+	.byte	0
+	.uleb128 0x2
+	.long	0x384
+	.uleb128 0x2
+	.long	0x3a0
+	.uleb128 0x2
+	.long	0x3c5
+	.uleb128 0x6
+	.long	.LASF72
+	.byte	0x9
+	.byte	0x13
+	.byte	0x4
+	.long	0x42c
+	.uleb128 0x2
+	.long	0x3dc
+	.uleb128 0x21
+	.byte	0x8
+	.byte	0x9
+	.byte	0x17
+	.byte	0x2
+	.long	0x451
+	.uleb128 0x17
+	.string	"obj"
+	.byte	0x18
+	.byte	0xb
+	.long	0x2ec
+	.uleb128 0x17
+	.string	"fun"
+	.byte	0x19
+	.byte	0x11
+	.long	0x326
+	.byte	0
+	.uleb128 0x2
+	.long	0x9f
+	.uleb128 0x2
+	.long	0x2e
+	.uleb128 0xf
+	.long	.LASF73
+	.byte	0x10
+	.byte	0xa
+	.byte	0x14
+	.byte	0x10
+	.long	0x483
+	.uleb128 0x3
+	.long	.LASF74
+	.byte	0xa
+	.byte	0x14
+	.byte	0x28
+	.long	0x2f8
+	.byte	0
+	.uleb128 0x3
+	.long	.LASF75
+	.byte	0xa
+	.byte	0x14
+	.byte	0x46
+	.long	0x483
+	.byte	0x8
+	.byte	0
+	.uleb128 0x2
+	.long	0x45b
+	.uleb128 0x6
+	.long	.LASF76
+	.byte	0xa
+	.byte	0x14
+	.byte	0x4f
+	.long	0x483
+	.uleb128 0x22
+	.long	.LASF77
+	.value	0x140
+	.byte	0xa
+	.byte	0x14
+	.byte	0x62
+	.long	0x68f
+	.uleb128 0x3
+	.long	.LASF78
+	.byte	0xa
+	.byte	0x14
+	.byte	0x86
+	.long	0x6a8
+	.byte	0
+	.uleb128 0x3
+	.long	.LASF79
+	.byte	0xa
+	.byte	0x14
+	.byte	0xaf
+	.long	0x6bc
+	.byte	0x8
+	.uleb128 0x3
+	.long	.LASF80
+	.byte	0xa
+	.byte	0x14
+	.byte	0xd1
+	.long	0x6d1
+	.byte	0x10
+	.uleb128 0x3
+	.long	.LASF81
+	.byte	0xa
+	.byte	0x14
+	.byte	0xf2
+	.long	0x6e5
+	.byte	0x18
+	.uleb128 0x5
+	.long	.LASF82
+	.value	0x116
+	.long	0x6fa
+	.byte	0x20
+	.uleb128 0x5
+	.long	.LASF83
+	.value	0x136
+	.long	0x731
+	.byte	0x28
+	.uleb128 0x5
+	.long	.LASF84
+	.value	0x17c
+	.long	0x754
+	.byte	0x30
+	.uleb128 0x5
+	.long	.LASF85
+	.value	0x1c7
+	.long	0x768
+	.byte	0x38
+	.uleb128 0x5
+	.long	.LASF86
+	.value	0x1e6
+	.long	0x778
+	.byte	0x40
+	.uleb128 0x5
+	.long	.LASF87
+	.value	0x207
+	.long	0x791
+	.byte	0x48
+	.uleb128 0x5
+	.long	.LASF88
+	.value	0x230
+	.long	0x7b6
+	.byte	0x50
+	.uleb128 0x5
+	.long	.LASF89
+	.value	0x26a
+	.long	0x7d4
+	.byte	0x58
+	.uleb128 0x5
+	.long	.LASF90
+	.value	0x2b4
+	.long	0x806
+	.byte	0x60
+	.uleb128 0x18
+	.string	"Elt"
+	.value	0x2fc
+	.long	0x81f
+	.byte	0x68
+	.uleb128 0x5
+	.long	.LASF91
+	.value	0x324
+	.long	0x838
+	.byte	0x70
+	.uleb128 0x5
+	.long	.LASF92
+	.value	0x34d
+	.long	0x768
+	.byte	0x78
+	.uleb128 0x5
+	.long	.LASF93
+	.value	0x36e
+	.long	0x84c
+	.byte	0x80
+	.uleb128 0x5
+	.long	.LASF94
+	.value	0x38c
+	.long	0x865
+	.byte	0x88
+	.uleb128 0x5
+	.long	.LASF95
+	.value	0x3b3
+	.long	0x865
+	.byte	0x90
+	.uleb128 0x5
+	.long	.LASF96
+	.value	0x3db
+	.long	0x865
+	.byte	0x98
+	.uleb128 0x5
+	.long	.LASF97
+	.value	0x408
+	.long	0x768
+	.byte	0xa0
+	.uleb128 0x5
+	.long	.LASF98
+	.value	0x429
+	.long	0x791
+	.byte	0xa8
+	.uleb128 0x5
+	.long	.LASF99
+	.value	0x458
+	.long	0x892
+	.byte	0xb0
+	.uleb128 0x5
+	.long	.LASF100
+	.value	0x493
+	.long	0x8b0
+	.byte	0xb8
+	.uleb128 0x18
+	.string	"Map"
+	.value	0x4dc
+	.long	0x8c9
+	.byte	0xc0
+	.uleb128 0x5
+	.long	.LASF101
+	.value	0x511
+	.long	0x8c9
+	.byte	0xc8
+	.uleb128 0x5
+	.long	.LASF102
+	.value	0x547
+	.long	0x768
+	.byte	0xd0
+	.uleb128 0x5
+	.long	.LASF103
+	.value	0x56b
+	.long	0x768
+	.byte	0xd8
+	.uleb128 0x5
+	.long	.LASF104
+	.value	0x590
+	.long	0x791
+	.byte	0xe0
+	.uleb128 0x5
+	.long	.LASF105
+	.value	0x5bf
+	.long	0x791
+	.byte	0xe8
+	.uleb128 0x5
+	.long	.LASF106
+	.value	0x5e9
+	.long	0x8e2
+	.byte	0xf0
+	.uleb128 0x5
+	.long	.LASF107
+	.value	0x60c
+	.long	0x900
+	.byte	0xf8
+	.uleb128 0x9
+	.long	.LASF108
+	.value	0x64c
+	.long	0x919
+	.value	0x100
+	.uleb128 0x9
+	.long	.LASF109
+	.value	0x67a
+	.long	0x932
+	.value	0x108
+	.uleb128 0x9
+	.long	.LASF110
+	.value	0x69c
+	.long	0x950
+	.value	0x110
+	.uleb128 0x9
+	.long	.LASF111
+	.value	0x6e4
+	.long	0x96e
+	.value	0x118
+	.uleb128 0x9
+	.long	.LASF112
+	.value	0x725
+	.long	0x988
+	.value	0x120
+	.uleb128 0x9
+	.long	.LASF113
+	.value	0x74f
+	.long	0x9bf
+	.value	0x128
+	.uleb128 0x9
+	.long	.LASF114
+	.value	0x78e
+	.long	0x9ec
+	.value	0x130
+	.uleb128 0x9
+	.long	.LASF115
+	.value	0x7e6
+	.long	0xa0a
+	.value	0x138
+	.byte	0
+	.uleb128 0x14
+	.long	0x494
+	.uleb128 0x4
+	.long	0x488
+	.long	0x6a8
+	.uleb128 0x1
+	.long	0x2f8
+	.uleb128 0x1
+	.long	0x488
+	.byte	0
+	.uleb128 0x2
+	.long	0x694
+	.uleb128 0x4
+	.long	0x488
+	.long	0x6bc
+	.uleb128 0x1
+	.long	0x2f8
+	.byte	0
+	.uleb128 0x2
+	.long	0x6ad
+	.uleb128 0x4
+	.long	0x488
+	.long	0x6d1
+	.uleb128 0x1
+	.long	0x2e
+	.uleb128 0x19
+	.byte	0
+	.uleb128 0x2
+	.long	0x6c1
+	.uleb128 0x4
+	.long	0x488
+	.long	0x6e5
+	.uleb128 0x1
+	.long	0x451
+	.byte	0
+	.uleb128 0x2
+	.long	0x6d6
+	.uleb128 0x4
+	.long	0x488
+	.long	0x6fa
+	.uleb128 0x1
+	.long	0x2f8
+	.uleb128 0x19
+	.byte	0
+	.uleb128 0x2
+	.long	0x6ea
+	.uleb128 0x4
+	.long	0x2d4
+	.long	0x718
+	.uleb128 0x1
+	.long	0x488
+	.uleb128 0x1
+	.long	0x488
+	.uleb128 0x1
+	.long	0x718
+	.byte	0
+	.uleb128 0x2
+	.long	0x71d
+	.uleb128 0x4
+	.long	0x2d4
+	.long	0x731
+	.uleb128 0x1
+	.long	0x2f8
+	.uleb128 0x1
+	.long	0x2f8
+	.byte	0
+	.uleb128 0x2
+	.long	0x6ff
+	.uleb128 0x4
+	.long	0x2f8
+	.long	0x754
+	.uleb128 0x1
+	.long	0x488
+	.uleb128 0x1
+	.long	0x2f8
+	.uleb128 0x1
+	.long	0x718
+	.uleb128 0x1
+	.long	0x456
+	.byte	0
+	.uleb128 0x2
+	.long	0x736
+	.uleb128 0x4
+	.long	0x488
+	.long	0x768
+	.uleb128 0x1
+	.long	0x488
+	.byte	0
+	.uleb128 0x2
+	.long	0x759
+	.uleb128 0xb
+	.long	0x778
+	.uleb128 0x1
+	.long	0x488
+	.byte	0
+	.uleb128 0x2
+	.long	0x76d
+	.uleb128 0x4
+	.long	0x488
+	.long	0x791
+	.uleb128 0x1
+	.long	0x488
+	.uleb128 0x1
+	.long	0x488
+	.byte	0
+	.uleb128 0x2
+	.long	0x77d
+	.uleb128 0xb
+	.long	0x7a6
+	.uleb128 0x1
+	.long	0x488
+	.uleb128 0x1
+	.long	0x7a6
+	.byte	0
+	.uleb128 0x2
+	.long	0x7ab
+	.uleb128 0xb
+	.long	0x7b6
+	.uleb128 0x1
+	.long	0x2f8
+	.byte	0
+	.uleb128 0x2
+	.long	0x796
+	.uleb128 0x4
+	.long	0x488
+	.long	0x7d4
+	.uleb128 0x1
+	.long	0x488
+	.uleb128 0x1
+	.long	0x488
+	.uleb128 0x1
+	.long	0x7a6
+	.byte	0
+	.uleb128 0x2
+	.long	0x7bb
+	.uleb128 0x4
+	.long	0x488
+	.long	0x7f2
+	.uleb128 0x1
+	.long	0x488
+	.uleb128 0x1
+	.long	0x7a6
+	.uleb128 0x1
+	.long	0x7f2
+	.byte	0
+	.uleb128 0x2
+	.long	0x7f7
+	.uleb128 0x4
+	.long	0x2d4
+	.long	0x806
+	.uleb128 0x1
+	.long	0x2f8
+	.byte	0
+	.uleb128 0x2
+	.long	0x7d9
+	.uleb128 0x4
+	.long	0x2f8
+	.long	0x81f
+	.uleb128 0x1
+	.long	0x488
+	.uleb128 0x1
+	.long	0x2e0
+	.byte	0
+	.uleb128 0x2
+	.long	0x80b
+	.uleb128 0x4
+	.long	0x488
+	.long	0x838
+	.uleb128 0x1
+	.long	0x488
+	.uleb128 0x1
+	.long	0x2e0
+	.byte	0
+	.uleb128 0x2
+	.long	0x824
+	.uleb128 0x4
+	.long	0x2e0
+	.long	0x84c
+	.uleb128 0x1
+	.long	0x488
+	.byte	0
+	.uleb128 0x2
+	.long	0x83d
+	.uleb128 0x4
+	.long	0x2d4
+	.long	0x865
+	.uleb128 0x1
+	.long	0x488
+	.uleb128 0x1
+	.long	0x2e0
+	.byte	0
+	.uleb128 0x2
+	.long	0x851
+	.uleb128 0x4
+	.long	0x488
+	.long	0x87e
+	.uleb128 0x1
+	.long	0x488
+	.uleb128 0x1
+	.long	0x87e
+	.byte	0
+	.uleb128 0x2
+	.long	0x883
+	.uleb128 0x4
+	.long	0x2f8
+	.long	0x892
+	.uleb128 0x1
+	.long	0x2f8
+	.byte	0
+	.uleb128 0x2
+	.long	0x86a
+	.uleb128 0x4
+	.long	0x488
+	.long	0x8b0
+	.uleb128 0x1
+	.long	0x488
+	.uleb128 0x1
+	.long	0x488
+	.uleb128 0x1
+	.long	0x87e
+	.byte	0
+	.uleb128 0x2
+	.long	0x897
+	.uleb128 0x4
+	.long	0x488
+	.long	0x8c9
+	.uleb128 0x1
+	.long	0x87e
+	.uleb128 0x1
+	.long	0x488
+	.byte	0
+	.uleb128 0x2
+	.long	0x8b5
+	.uleb128 0x4
+	.long	0x2d4
+	.long	0x8e2
+	.uleb128 0x1
+	.long	0x488
+	.uleb128 0x1
+	.long	0x2f8
+	.byte	0
+	.uleb128 0x2
+	.long	0x8ce
+	.uleb128 0x4
+	.long	0x2d4
+	.long	0x900
+	.uleb128 0x1
+	.long	0x488
+	.uleb128 0x1
+	.long	0x2f8
+	.uleb128 0x1
+	.long	0x718
+	.byte	0
+	.uleb128 0x2
+	.long	0x8e7
+	.uleb128 0x4
+	.long	0x2d4
+	.long	0x919
+	.uleb128 0x1
+	.long	0x488
+	.uleb128 0x1
+	.long	0x488
+	.byte	0
+	.uleb128 0x2
+	.long	0x905
+	.uleb128 0x4
+	.long	0x2e
+	.long	0x932
+	.uleb128 0x1
+	.long	0x488
+	.uleb128 0x1
+	.long	0x2f8
+	.byte	0
+	.uleb128 0x2
+	.long	0x91e
+	.uleb128 0x4
+	.long	0x2e
+	.long	0x950
+	.uleb128 0x1
+	.long	0x488
+	.uleb128 0x1
+	.long	0x2f8
+	.uleb128 0x1
+	.long	0x718
+	.byte	0
+	.uleb128 0x2
+	.long	0x937
+	.uleb128 0x4
+	.long	0x488
+	.long	0x96e
+	.uleb128 0x1
+	.long	0x488
+	.uleb128 0x1
+	.long	0x2f8
+	.uleb128 0x1
+	.long	0x718
+	.byte	0
+	.uleb128 0x2
+	.long	0x955
+	.uleb128 0xb
+	.long	0x983
+	.uleb128 0x1
+	.long	0x983
+	.uleb128 0x1
+	.long	0x488
+	.byte	0
+	.uleb128 0x2
+	.long	0x2f8
+	.uleb128 0x2
+	.long	0x973
+	.uleb128 0x4
+	.long	0x2e
+	.long	0x9a6
+	.uleb128 0x1
+	.long	0x2c3
+	.uleb128 0x1
+	.long	0x488
+	.uleb128 0x1
+	.long	0x9a6
+	.byte	0
+	.uleb128 0x2
+	.long	0x9ab
+	.uleb128 0x4
+	.long	0x2e
+	.long	0x9bf
+	.uleb128 0x1
+	.long	0x2c3
+	.uleb128 0x1
+	.long	0x2f8
+	.byte	0
+	.uleb128 0x2
+	.long	0x98d
+	.uleb128 0x4
+	.long	0x2e
+	.long	0x9ec
+	.uleb128 0x1
+	.long	0x2c3
+	.uleb128 0x1
+	.long	0x488
+	.uleb128 0x1
+	.long	0x9a6
+	.uleb128 0x1
+	.long	0x80
+	.uleb128 0x1
+	.long	0x80
+	.uleb128 0x1
+	.long	0x80
+	.byte	0
+	.uleb128 0x2
+	.long	0x9c4
+	.uleb128 0x4
+	.long	0x2e
+	.long	0xa0a
+	.uleb128 0x1
+	.long	0x34b
+	.uleb128 0x1
+	.long	0x304
+	.uleb128 0x1
+	.long	0x488
+	.byte	0
+	.uleb128 0x2
+	.long	0x9f1
+	.uleb128 0x23
+	.long	.LASF137
+	.byte	0xa
+	.byte	0x14
+	.value	0x83b
+	.long	0xa1c
+	.uleb128 0x2
+	.long	0x68f
+	.uleb128 0x1a
+	.long	.LASF125
+	.byte	0x9
+	.byte	0x21
+	.byte	0x10
+	.long	0x34b
+	.uleb128 0x24
+	.long	.LASF119
+	.byte	0xc
+	.value	0x197
+	.byte	0xf
+	.long	0xd4
+	.long	0xa44
+	.uleb128 0x1
+	.long	0x2cf
+	.byte	0
+	.uleb128 0xd
+	.long	.LASF116
+	.byte	0x9
+	.byte	0x22
+	.byte	0xd
+	.long	0xa56
+	.uleb128 0x1
+	.long	0x34b
+	.byte	0
+	.uleb128 0xd
+	.long	.LASF117
+	.byte	0x9
+	.byte	0x26
+	.byte	0xd
+	.long	0xa68
+	.uleb128 0x1
+	.long	0x34b
+	.byte	0
+	.uleb128 0xd
+	.long	.LASF118
+	.byte	0xb
+	.byte	0x6
+	.byte	0x6
+	.long	0xa84
+	.uleb128 0x1
+	.long	0x2f8
+	.uleb128 0x1
+	.long	0x2f8
+	.uleb128 0x1
+	.long	0x2f8
+	.byte	0
+	.uleb128 0x11
+	.long	.LASF120
+	.byte	0xa
+	.byte	0x1d
+	.byte	0xf
+	.long	0x2f8
+	.long	0xa9f
+	.uleb128 0x1
+	.long	0x304
+	.uleb128 0x1
+	.long	0x2e0
+	.byte	0
+	.uleb128 0x11
+	.long	.LASF121
+	.byte	0x8
+	.byte	0x17
+	.byte	0xf
+	.long	0x2f8
+	.long	0xab5
+	.uleb128 0x1
+	.long	0x310
+	.byte	0
+	.uleb128 0xd
+	.long	.LASF122
+	.byte	0xb
+	.byte	0x8
+	.byte	0x6
+	.long	0xad1
+	.uleb128 0x1
+	.long	0x2f8
+	.uleb128 0x1
+	.long	0x2e
+	.uleb128 0x1
+	.long	0x2e
+	.byte	0
+	.uleb128 0x11
+	.long	.LASF123
+	.byte	0x9
+	.byte	0x24
+	.byte	0xc
+	.long	0x2e
+	.long	0xaf1
+	.uleb128 0x1
+	.long	0x34b
+	.uleb128 0x1
+	.long	0x2cf
+	.uleb128 0x1
+	.long	0x2e
+	.byte	0
+	.uleb128 0x11
+	.long	.LASF124
+	.byte	0x9
+	.byte	0x1d
+	.byte	0x10
+	.long	0x34b
+	.long	0xb07
+	.uleb128 0x1
+	.long	0x310
+	.byte	0
+	.uleb128 0x1a
+	.long	.LASF126
+	.byte	0x8
+	.byte	0x12
+	.byte	0xf
+	.long	0x310
+	.uleb128 0xd
+	.long	.LASF127
+	.byte	0xb
+	.byte	0x15
+	.byte	0x6
+	.long	0xb2a
+	.uleb128 0x1
+	.long	0x80
+	.uleb128 0x1
+	.long	0xb2a
+	.byte	0
+	.uleb128 0x2
+	.long	0xb2f
+	.uleb128 0x25
+	.uleb128 0x12
+	.long	.LASF129
+	.byte	0x3c
+	.quad	.LFB3
+	.quad	.LFE3-.LFB3
+	.uleb128 0x1
+	.byte	0x9c
+	.long	0xba0
+	.uleb128 0x7
+	.string	"i"
+	.byte	0x3e
+	.byte	0x6
+	.long	0x2e
+	.uleb128 0x2
+	.byte	0x91
+	.sleb128 -36
+	.uleb128 0xa
+	.long	.LASF128
+	.byte	0x3f
+	.byte	0x8
+	.long	0x80
+	.uleb128 0x2
+	.byte	0x91
+	.sleb128 -48
+	.uleb128 0x7
+	.string	"txt"
+	.byte	0x40
+	.byte	0x8
+	.long	0x80
+	.uleb128 0x2
+	.byte	0x91
+	.sleb128 -56
+	.uleb128 0x13
+	.quad	.LBB4
+	.quad	.LBE4-.LBB4
+	.uleb128 0x7
+	.string	"s"
+	.byte	0x42
+	.byte	0xb
+	.long	0x34b
+	.uleb128 0x2
+	.byte	0x91
+	.sleb128 -64
+	.uleb128 0x7
+	.string	"n"
+	.byte	0x43
+	.byte	0x7
+	.long	0x2e
+	.uleb128 0x3
+	.byte	0x91
+	.sleb128 -68
+	.byte	0
+	.byte	0
+	.uleb128 0x12
+	.long	.LASF130
+	.byte	0x2b
+	.quad	.LFB2
+	.quad	.LFE2-.LFB2
+	.uleb128 0x1
+	.byte	0x9c
+	.long	0xc1d
+	.uleb128 0x7
+	.string	"l"
+	.byte	0x2d
+	.byte	0xd
+	.long	0x488
+	.uleb128 0x2
+	.byte	0x91
+	.sleb128 -24
+	.uleb128 0x13
+	.quad	.LBB3
+	.quad	.LBE3-.LBB3
+	.uleb128 0xa
+	.long	.LASF59
+	.byte	0x2f
+	.byte	0xa
+	.long	0x310
+	.uleb128 0x2
+	.byte	0x91
+	.sleb128 -32
+	.uleb128 0x7
+	.string	"txt"
+	.byte	0x30
+	.byte	0xa
+	.long	0x2f8
+	.uleb128 0x2
+	.byte	0x91
+	.sleb128 -40
+	.uleb128 0x7
+	.string	"s"
+	.byte	0x31
+	.byte	0xb
+	.long	0x34b
+	.uleb128 0x2
+	.byte	0x91
+	.sleb128 -48
+	.uleb128 0x7
+	.string	"n"
+	.byte	0x32
+	.byte	0x7
+	.long	0x2e
+	.uleb128 0x2
+	.byte	0x91
+	.sleb128 -52
+	.uleb128 0xa
+	.long	.LASF131
+	.byte	0x33
+	.byte	0xa
+	.long	0x2f8
+	.uleb128 0x2
+	.byte	0x91
+	.sleb128 -64
+	.byte	0
+	.byte	0
+	.uleb128 0x12
+	.long	.LASF132
+	.byte	0x15
+	.quad	.LFB1
+	.quad	.LFE1-.LFB1
+	.uleb128 0x1
+	.byte	0x9c
+	.long	0xcba
+	.uleb128 0x7
+	.string	"i"
+	.byte	0x17
+	.byte	0x6
+	.long	0x2e
+	.uleb128 0x2
+	.byte	0x91
+	.sleb128 -36
+	.uleb128 0xa
+	.long	.LASF128
+	.byte	0x18
+	.byte	0x8
+	.long	0x80
+	.uleb128 0x2
+	.byte	0x91
+	.sleb128 -48
+	.uleb128 0x7
+	.string	"txt"
+	.byte	0x19
+	.byte	0x8
+	.long	0x80
+	.uleb128 0x2
+	.byte	0x91
+	.sleb128 -56
+	.uleb128 0x13
+	.quad	.LBB2
+	.quad	.LBE2-.LBB2
+	.uleb128 0xa
+	.long	.LASF131
+	.byte	0x1b
+	.byte	0xa
+	.long	0x2f8
+	.uleb128 0x3
+	.byte	0x91
+	.sleb128 -88
+	.uleb128 0xa
+	.long	.LASF133
+	.byte	0x1b
+	.byte	0x10
+	.long	0x2f8
+	.uleb128 0x3
+	.byte	0x91
+	.sleb128 -96
+	.uleb128 0xa
+	.long	.LASF59
+	.byte	0x1d
+	.byte	0xa
+	.long	0x310
+	.uleb128 0x2
+	.byte	0x91
+	.sleb128 -64
+	.uleb128 0x7
+	.string	"s"
+	.byte	0x1e
+	.byte	0xb
+	.long	0x34b
+	.uleb128 0x3
+	.byte	0x91
+	.sleb128 -72
+	.uleb128 0x7
+	.string	"n"
+	.byte	0x1f
+	.byte	0x7
+	.long	0x2e
+	.uleb128 0x3
+	.byte	0x91
+	.sleb128 -76
+	.byte	0
+	.byte	0
+	.uleb128 0x26
+	.long	.LASF138
+	.byte	0x1
+	.byte	0xd
+	.byte	0x1
+	.quad	.LFB0
+	.quad	.LFE0-.LFB0
+	.uleb128 0x1
+	.byte	0x9c
+	.byte	0
+	.section	.debug_abbrev,"",@progbits
+.Ldebug_abbrev0:
+	.uleb128 0x1
+	.uleb128 0x5
+	.byte	0
+	.uleb128 0x49
+	.uleb128 0x13
+	.byte	0
+	.byte	0
+	.uleb128 0x2
+	.uleb128 0xf
+	.byte	0
+	.uleb128 0xb
+	.uleb128 0x21
+	.sleb128 8
+	.uleb128 0x49
+	.uleb128 0x13
+	.byte	0
+	.byte	0
+	.uleb128 0x3
+	.uleb128 0xd
+	.byte	0
+	.uleb128 0x3
+	.uleb128 0xe
+	.uleb128 0x3a
+	.uleb128 0xb
+	.uleb128 0x3b
+	.uleb128 0xb
+	.uleb128 0x39
+	.uleb128 0xb
+	.uleb128 0x49
+	.uleb128 0x13
+	.uleb128 0x38
+	.uleb128 0xb
+	.byte	0
+	.byte	0
+	.uleb128 0x4
+	.uleb128 0x15
+	.byte	0x1
+	.uleb128 0x27
+	.uleb128 0x19
+	.uleb128 0x49
+	.uleb128 0x13
+	.uleb128 0x1
+	.uleb128 0x13
+	.byte	0
+	.byte	0
+	.uleb128 0x5
+	.uleb128 0xd
+	.byte	0
+	.uleb128 0x3
+	.uleb128 0xe
+	.uleb128 0x3a
+	.uleb128 0x21
+	.sleb128 10
+	.uleb128 0x3b
+	.uleb128 0x21
+	.sleb128 20
+	.uleb128 0x39
+	.uleb128 0x5
+	.uleb128 0x49
+	.uleb128 0x13
+	.uleb128 0x38
+	.uleb128 0xb
+	.byte	0
+	.byte	0
+	.uleb128 0x6
+	.uleb128 0x16
+	.byte	0
+	.uleb128 0x3
+	.uleb128 0xe
+	.uleb128 0x3a
+	.uleb128 0xb
+	.uleb128 0x3b
+	.uleb128 0xb
+	.uleb128 0x39
+	.uleb128 0xb
+	.uleb128 0x49
+	.uleb128 0x13
+	.byte	0
+	.byte	0
+	.uleb128 0x7
+	.uleb128 0x34
+	.byte	0
+	.uleb128 0x3
+	.uleb128 0x8
+	.uleb128 0x3a
+	.uleb128 0x21
+	.sleb128 1
+	.uleb128 0x3b
+	.uleb128 0xb
+	.uleb128 0x39
+	.uleb128 0xb
+	.uleb128 0x49
+	.uleb128 0x13
+	.uleb128 0x2
+	.uleb128 0x18
+	.byte	0
+	.byte	0
+	.uleb128 0x8
+	.uleb128 0x24
+	.byte	0
+	.uleb128 0xb
+	.uleb128 0xb
+	.uleb128 0x3e
+	.uleb128 0xb
+	.uleb128 0x3
+	.uleb128 0xe
+	.byte	0
+	.byte	0
+	.uleb128 0x9
+	.uleb128 0xd
+	.byte	0
+	.uleb128 0x3
+	.uleb128 0xe
+	.uleb128 0x3a
+	.uleb128 0x21
+	.sleb128 10
+	.uleb128 0x3b
+	.uleb128 0x21
+	.sleb128 20
+	.uleb128 0x39
+	.uleb128 0x5
+	.uleb128 0x49
+	.uleb128 0x13
+	.uleb128 0x38
+	.uleb128 0x5
+	.byte	0
+	.byte	0
+	.uleb128 0xa
+	.uleb128 0x34
+	.byte	0
+	.uleb128 0x3
+	.uleb128 0xe
+	.uleb128 0x3a
+	.uleb128 0x21
+	.sleb128 1
+	.uleb128 0x3b
+	.uleb128 0xb
+	.uleb128 0x39
+	.uleb128 0xb
+	.uleb128 0x49
+	.uleb128 0x13
+	.uleb128 0x2
+	.uleb128 0x18
+	.byte	0
+	.byte	0
+	.uleb128 0xb
+	.uleb128 0x15
+	.byte	0x1
+	.uleb128 0x27
+	.uleb128 0x19
+	.uleb128 0x1
+	.uleb128 0x13
+	.byte	0
+	.byte	0
+	.uleb128 0xc
+	.uleb128 0x16
+	.byte	0
+	.uleb128 0x3
+	.uleb128 0xe
+	.uleb128 0x3a
+	.uleb128 0x21
+	.sleb128 7
+	.uleb128 0x3b
+	.uleb128 0x5
+	.uleb128 0x39
+	.uleb128 0xb
+	.uleb128 0x49
+	.uleb128 0x13
+	.byte	0
+	.byte	0
+	.uleb128 0xd
+	.uleb128 0x2e
+	.byte	0x1
+	.uleb128 0x3f
+	.uleb128 0x19
+	.uleb128 0x3
+	.uleb128 0xe
+	.uleb128 0x3a
+	.uleb128 0xb
+	.uleb128 0x3b
+	.uleb128 0xb
+	.uleb128 0x39
+	.uleb128 0xb
+	.uleb128 0x27
+	.uleb128 0x19
+	.uleb128 0x3c
+	.uleb128 0x19
+	.uleb128 0x1
+	.uleb128 0x13
+	.byte	0
+	.byte	0
+	.uleb128 0xe
+	.uleb128 0xd
+	.byte	0
+	.uleb128 0x3
+	.uleb128 0xe
+	.uleb128 0x3a
+	.uleb128 0x21
+	.sleb128 3
+	.uleb128 0x3b
+	.uleb128 0x21
+	.sleb128 0
+	.uleb128 0x49
+	.uleb128 0x13
+	.uleb128 0x38
+	.uleb128 0xb
+	.byte	0
+	.byte	0
+	.uleb128 0xf
+	.uleb128 0x13
+	.byte	0x1
+	.uleb128 0x3
+	.uleb128 0xe
+	.uleb128 0xb
+	.uleb128 0xb
+	.uleb128 0x3a
+	.uleb128 0xb
+	.uleb128 0x3b
+	.uleb128 0xb
+	.uleb128 0x39
+	.uleb128 0xb
+	.uleb128 0x1
+	.uleb128 0x13
+	.byte	0
+	.byte	0
+	.uleb128 0x10
+	.uleb128 0x13
+	.byte	0
+	.uleb128 0x3
+	.uleb128 0xe
+	.uleb128 0x3c
+	.uleb128 0x19
+	.byte	0
+	.byte	0
+	.uleb128 0x11
+	.uleb128 0x2e
+	.byte	0x1
+	.uleb128 0x3f
+	.uleb128 0x19
+	.uleb128 0x3
+	.uleb128 0xe
+	.uleb128 0x3a
+	.uleb128 0xb
+	.uleb128 0x3b
+	.uleb128 0xb
+	.uleb128 0x39
+	.uleb128 0xb
+	.uleb128 0x27
+	.uleb128 0x19
+	.uleb128 0x49
+	.uleb128 0x13
+	.uleb128 0x3c
+	.uleb128 0x19
+	.uleb128 0x1
+	.uleb128 0x13
+	.byte	0
+	.byte	0
+	.uleb128 0x12
+	.uleb128 0x2e
+	.byte	0x1
+	.uleb128 0x3f
+	.uleb128 0x19
+	.uleb128 0x3
+	.uleb128 0xe
+	.uleb128 0x3a
+	.uleb128 0x21
+	.sleb128 1
+	.uleb128 0x3b
+	.uleb128 0xb
+	.uleb128 0x39
+	.uleb128 0x21
+	.sleb128 1
+	.uleb128 0x27
+	.uleb128 0x19
+	.uleb128 0x11
+	.uleb128 0x1
+	.uleb128 0x12
+	.uleb128 0x7
+	.uleb128 0x40
+	.uleb128 0x18
+	.uleb128 0x7c
+	.uleb128 0x19
+	.uleb128 0x1
+	.uleb128 0x13
+	.byte	0
+	.byte	0
+	.uleb128 0x13
+	.uleb128 0xb
+	.byte	0x1
+	.uleb128 0x11
+	.uleb128 0x1
+	.uleb128 0x12
+	.uleb128 0x7
+	.byte	0
+	.byte	0
+	.uleb128 0x14
+	.uleb128 0x26
+	.byte	0
+	.uleb128 0x49
+	.uleb128 0x13
+	.byte	0
+	.byte	0
+	.uleb128 0x15
+	.uleb128 0x1
+	.byte	0x1
+	.uleb128 0x49
+	.uleb128 0x13
+	.uleb128 0x1
+	.uleb128 0x13
+	.byte	0
+	.byte	0
+	.uleb128 0x16
+	.uleb128 0x21
+	.byte	0
+	.uleb128 0x49
+	.uleb128 0x13
+	.uleb128 0x2f
+	.uleb128 0xb
+	.byte	0
+	.byte	0
+	.uleb128 0x17
+	.uleb128 0xd
+	.byte	0
+	.uleb128 0x3
+	.uleb128 0x8
+	.uleb128 0x3a
+	.uleb128 0x21
+	.sleb128 9
+	.uleb128 0x3b
+	.uleb128 0xb
+	.uleb128 0x39
+	.uleb128 0xb
+	.uleb128 0x49
+	.uleb128 0x13
+	.byte	0
+	.byte	0
+	.uleb128 0x18
+	.uleb128 0xd
+	.byte	0
+	.uleb128 0x3
+	.uleb128 0x8
+	.uleb128 0x3a
+	.uleb128 0x21
+	.sleb128 10
+	.uleb128 0x3b
+	.uleb128 0x21
+	.sleb128 20
+	.uleb128 0x39
+	.uleb128 0x5
+	.uleb128 0x49
+	.uleb128 0x13
+	.uleb128 0x38
+	.uleb128 0xb
+	.byte	0
+	.byte	0
+	.uleb128 0x19
+	.uleb128 0x18
+	.byte	0
+	.byte	0
+	.byte	0
+	.uleb128 0x1a
+	.uleb128 0x2e
+	.byte	0
+	.uleb128 0x3f
+	.uleb128 0x19
+	.uleb128 0x3
+	.uleb128 0xe
+	.uleb128 0x3a
+	.uleb128 0xb
+	.uleb128 0x3b
+	.uleb128 0xb
+	.uleb128 0x39
+	.uleb128 0xb
+	.uleb128 0x27
+	.uleb128 0x19
+	.uleb128 0x49
+	.uleb128 0x13
+	.uleb128 0x3c
+	.uleb128 0x19
+	.byte	0
+	.byte	0
+	.uleb128 0x1b
+	.uleb128 0x11
+	.byte	0x1
+	.uleb128 0x25
+	.uleb128 0xe
+	.uleb128 0x13
+	.uleb128 0xb
+	.uleb128 0x3
+	.uleb128 0x1f
+	.uleb128 0x1b
+	.uleb128 0x1f
+	.uleb128 0x11
+	.uleb128 0x1
+	.uleb128 0x12
+	.uleb128 0x7
+	.uleb128 0x10
+	.uleb128 0x17
+	.byte	0
+	.byte	0
+	.uleb128 0x1c
+	.uleb128 0x24
+	.byte	0
+	.uleb128 0xb
+	.uleb128 0xb
+	.uleb128 0x3e
+	.uleb128 0xb
+	.uleb128 0x3
+	.uleb128 0x8
+	.byte	0
+	.byte	0
+	.uleb128 0x1d
+	.uleb128 0xf
+	.byte	0
+	.uleb128 0xb
+	.uleb128 0xb
+	.byte	0
+	.byte	0
+	.uleb128 0x1e
+	.uleb128 0x13
+	.byte	0x1
+	.uleb128 0x3
+	.uleb128 0xe
+	.uleb128 0xb
+	.uleb128 0xb
+	.uleb128 0x3a
+	.uleb128 0xb
+	.uleb128 0x3b
+	.uleb128 0xb
+	.uleb128 0x1
+	.uleb128 0x13
+	.byte	0
+	.byte	0
+	.uleb128 0x1f
+	.uleb128 0x16
+	.byte	0
+	.uleb128 0x3
+	.uleb128 0xe
+	.uleb128 0x3a
+	.uleb128 0xb
+	.uleb128 0x3b
+	.uleb128 0xb
+	.uleb128 0x39
+	.uleb128 0xb
+	.byte	0
+	.byte	0
+	.uleb128 0x20
+	.uleb128 0xd
+	.byte	0
+	.uleb128 0x3
+	.uleb128 0x8
+	.uleb128 0x3a
+	.uleb128 0xb
+	.uleb128 0x3b
+	.uleb128 0xb
+	.uleb128 0x39
+	.uleb128 0xb
+	.uleb128 0x49
+	.uleb128 0x13
+	.uleb128 0x38
+	.uleb128 0xb
+	.byte	0
+	.byte	0
+	.uleb128 0x21
+	.uleb128 0x17
+	.byte	0x1
+	.uleb128 0xb
+	.uleb128 0xb
+	.uleb128 0x3a
+	.uleb128 0xb
+	.uleb128 0x3b
+	.uleb128 0xb
+	.uleb128 0x39
+	.uleb128 0xb
+	.uleb128 0x1
+	.uleb128 0x13
+	.byte	0
+	.byte	0
+	.uleb128 0x22
+	.uleb128 0x13
+	.byte	0x1
+	.uleb128 0x3
+	.uleb128 0xe
+	.uleb128 0xb
+	.uleb128 0x5
+	.uleb128 0x3a
+	.uleb128 0xb
+	.uleb128 0x3b
+	.uleb128 0xb
+	.uleb128 0x39
+	.uleb128 0xb
+	.uleb128 0x1
+	.uleb128 0x13
+	.byte	0
+	.byte	0
+	.uleb128 0x23
+	.uleb128 0x34
+	.byte	0
+	.uleb128 0x3
+	.uleb128 0xe
+	.uleb128 0x3a
+	.uleb128 0xb
+	.uleb128 0x3b
+	.uleb128 0xb
+	.uleb128 0x39
+	.uleb128 0x5
+	.uleb128 0x49
+	.uleb128 0x13
+	.uleb128 0x3f
+	.uleb128 0x19
+	.uleb128 0x3c
+	.uleb128 0x19
+	.byte	0
+	.byte	0
+	.uleb128 0x24
+	.uleb128 0x2e
+	.byte	0x1
+	.uleb128 0x3f
+	.uleb128 0x19
+	.uleb128 0x3
+	.uleb128 0xe
+	.uleb128 0x3a
+	.uleb128 0xb
+	.uleb128 0x3b
+	.uleb128 0x5
+	.uleb128 0x39
+	.uleb128 0xb
+	.uleb128 0x27
+	.uleb128 0x19
+	.uleb128 0x49
+	.uleb128 0x13
+	.uleb128 0x3c
+	.uleb128 0x19
+	.uleb128 0x1
+	.uleb128 0x13
+	.byte	0
+	.byte	0
+	.uleb128 0x25
+	.uleb128 0x15
+	.byte	0
+	.uleb128 0x27
+	.uleb128 0x19
+	.byte	0
+	.byte	0
+	.uleb128 0x26
+	.uleb128 0x2e
+	.byte	0
+	.uleb128 0x3f
+	.uleb128 0x19
+	.uleb128 0x3
+	.uleb128 0xe
+	.uleb128 0x3a
+	.uleb128 0xb
+	.uleb128 0x3b
+	.uleb128 0xb
+	.uleb128 0x39
+	.uleb128 0xb
+	.uleb128 0x11
+	.uleb128 0x1
+	.uleb128 0x12
+	.uleb128 0x7
+	.uleb128 0x40
+	.uleb128 0x18
+	.uleb128 0x7c
+	.uleb128 0x19
+	.byte	0
+	.byte	0
+	.byte	0
+	.section	.debug_aranges,"",@progbits
+	.long	0x2c
+	.value	0x2
+	.long	.Ldebug_info0
+	.byte	0x8
+	.byte	0
+	.value	0
+	.value	0
+	.quad	.Ltext0
+	.quad	.Letext0-.Ltext0
+	.quad	0
+	.quad	0
+	.section	.debug_line,"",@progbits
+.Ldebug_line0:
+	.section	.debug_str,"MS",@progbits,1
+.LASF9:
+	.string	"__off_t"
+.LASF20:
+	.string	"_IO_read_ptr"
+.LASF32:
+	.string	"_chain"
+.LASF18:
+	.string	"size_t"
+.LASF132:
+	.string	"testBuffer"
+.LASF38:
+	.string	"_shortbuf"
+.LASF63:
+	.string	"ostream"
+.LASF14:
+	.string	"gp_offset"
+.LASF114:
+	.string	"GPrint"
+.LASF15:
+	.string	"fp_offset"
+.LASF124:
+	.string	"ostreamNewFrBuffer"
+.LASF26:
+	.string	"_IO_buf_base"
+.LASF56:
+	.string	"String"
+.LASF126:
+	.string	"bufNew"
+.LASF6:
+	.string	"signed char"
+.LASF137:
+	.string	"String_listPointer"
+.LASF82:
+	.string	"ListNull"
+.LASF133:
+	.string	"expect"
+.LASF33:
+	.string	"_fileno"
+.LASF21:
+	.string	"_IO_read_end"
+.LASF8:
+	.string	"long int"
+.LASF83:
+	.string	"Equal"
+.LASF91:
+	.string	"Drop"
+.LASF19:
+	.string	"_flags"
+.LASF138:
+	.string	"ostreamTest"
+.LASF27:
+	.string	"_IO_buf_end"
+.LASF36:
+	.string	"_cur_column"
+.LASF13:
+	.string	"double"
+.LASF35:
+	.string	"_old_offset"
+.LASF40:
+	.string	"_offset"
+.LASF117:
+	.string	"ostreamClose"
+.LASF93:
+	.string	"_Length"
+.LASF86:
+	.string	"Free"
+.LASF79:
+	.string	"Singleton"
+.LASF77:
+	.string	"String_listOpsStruct"
+.LASF102:
+	.string	"Reverse"
+.LASF55:
+	.string	"Pointer"
+.LASF106:
+	.string	"Memq"
+.LASF71:
+	.string	"closeFn"
+.LASF52:
+	.string	"long long int"
+.LASF128:
+	.string	"orig_txt"
+.LASF4:
+	.string	"unsigned int"
+.LASF75:
+	.string	"rest"
+.LASF44:
+	.string	"_freeres_buf"
+.LASF88:
+	.string	"FreeDeeply"
+.LASF119:
+	.string	"strlen"
+.LASF76:
+	.string	"StringList"
+.LASF16:
+	.string	"overflow_arg_area"
+.LASF5:
+	.string	"long unsigned int"
+.LASF81:
+	.string	"Listv"
+.LASF104:
+	.string	"Concat"
+.LASF24:
+	.string	"_IO_write_ptr"
+.LASF123:
+	.string	"ostreamWrite"
+.LASF64:
+	.string	"data"
+.LASF108:
+	.string	"ContainsAllq"
+.LASF65:
+	.string	"OstWriteCharFn"
+.LASF67:
+	.string	"OstCloseFn"
+.LASF28:
+	.string	"_IO_save_base"
+.LASF39:
+	.string	"_lock"
+.LASF100:
+	.string	"CopyDeeplyTo"
+.LASF98:
+	.string	"CopyTo"
+.LASF116:
+	.string	"ostreamFree"
+.LASF46:
+	.string	"_mode"
+.LASF94:
+	.string	"IsLength"
+.LASF130:
+	.string	"testBuffer2"
+.LASF70:
+	.string	"writeStringFn"
+.LASF111:
+	.string	"NRemove"
+.LASF118:
+	.string	"testStringEqual"
+.LASF120:
+	.string	"strnCopy"
+.LASF80:
+	.string	"List"
+.LASF129:
+	.string	"testNull"
+.LASF90:
+	.string	"FreeIfSat"
+.LASF89:
+	.string	"FreeDeeplyTo"
+.LASF25:
+	.string	"_IO_write_end"
+.LASF57:
+	.string	"CString"
+.LASF136:
+	.string	"_IO_lock_t"
+.LASF62:
+	.string	"_IO_FILE"
+.LASF61:
+	.string	"OStream"
+.LASF107:
+	.string	"Member"
+.LASF84:
+	.string	"Find"
+.LASF12:
+	.string	"float"
+.LASF49:
+	.string	"_IO_marker"
+.LASF92:
+	.string	"LastCons"
+.LASF31:
+	.string	"_markers"
+.LASF127:
+	.string	"showTest"
+.LASF68:
+	.string	"ostreamOps"
+.LASF72:
+	.string	"OStreamOps"
+.LASF2:
+	.string	"unsigned char"
+.LASF112:
+	.string	"FillVector"
+.LASF7:
+	.string	"short int"
+.LASF103:
+	.string	"NReverse"
+.LASF51:
+	.string	"_IO_wide_data"
+.LASF34:
+	.string	"_flags2"
+.LASF131:
+	.string	"txt2"
+.LASF125:
+	.string	"ostreamNewFrDevNull"
+.LASF37:
+	.string	"_vtable_offset"
+.LASF48:
+	.string	"FILE"
+.LASF17:
+	.string	"reg_save_area"
+.LASF78:
+	.string	"Cons"
+.LASF105:
+	.string	"NConcat"
+.LASF99:
+	.string	"CopyDeeply"
+.LASF74:
+	.string	"first"
+.LASF11:
+	.string	"char"
+.LASF134:
+	.string	"GNU C99 12.2.0 -mtune=generic -march=x86-64 -g -O0 -std=c99 -fasynchronous-unwind-tables"
+.LASF115:
+	.string	"Format"
+.LASF96:
+	.string	"IsLonger"
+.LASF59:
+	.string	"buffer"
+.LASF50:
+	.string	"_IO_codecvt"
+.LASF110:
+	.string	"Position"
+.LASF10:
+	.string	"__off64_t"
+.LASF22:
+	.string	"_IO_read_base"
+.LASF30:
+	.string	"_IO_save_end"
+.LASF87:
+	.string	"FreeTo"
+.LASF3:
+	.string	"short unsigned int"
+.LASF85:
+	.string	"FreeCons"
+.LASF69:
+	.string	"writeCharFn"
+.LASF54:
+	.string	"Length"
+.LASF41:
+	.string	"_codecvt"
+.LASF45:
+	.string	"__pad5"
+.LASF73:
+	.string	"StringListCons"
+.LASF47:
+	.string	"_unused2"
+.LASF58:
+	.string	"Buffer"
+.LASF66:
+	.string	"OstWriteStringFn"
+.LASF122:
+	.string	"testIntEqual"
+.LASF95:
+	.string	"IsShorter"
+.LASF113:
+	.string	"Print"
+.LASF29:
+	.string	"_IO_backup_base"
+.LASF97:
+	.string	"Copy"
+.LASF43:
+	.string	"_freeres_list"
+.LASF101:
+	.string	"NMap"
+.LASF42:
+	.string	"_wide_data"
+.LASF109:
+	.string	"Posq"
+.LASF53:
+	.string	"Bool"
+.LASF60:
+	.string	"OStreamPutFun"
+.LASF23:
+	.string	"_IO_write_base"
+.LASF121:
+	.string	"bufLiberate"
+.LASF135:
+	.string	"__va_list_tag"
+	.section	.debug_line_str,"MS",@progbits,1
+.LASF1:
+	.string	"/repo/aldor/aldor/src"
+.LASF0:
+	.string	"test/test_ostream.c"
+	.ident	"GCC: (Debian 12.2.0-14+deb12u1) 12.2.0"
+	.section	.note.GNU-stack,"",@progbits
